@@ -963,6 +963,30 @@ def c17(ctx):
                     pushes.append((fn, bb, t))
     if not pushes:
         out.append(undecided(R, 'push', 'no site adds to the thread table'))
+    # the table's length *is* the size of the pool, at every moment: it grows by single bounded pushes only, and threads leave it only to
+    # be retired - a thread that is taken out and put back is not counted while it is out, and a concurrent spawn sees room that is not there
+    bulk = []
+    for fn in F.crate_fns():
+        for bb, t in fn.calls():
+            if fn.blocks[bb]['cleanup'] or not t['args'] or t['args'][0]['k'] == 'const':
+                continue
+            name = t['func'].get('fn') or ''
+            ty0 = clean_ty(t['args'][0]['pl']['ty']).replace('std::sync::poison::mutex::', '')
+            if 'SchedulerThread' not in ty0 or 'Mutex<bool>' not in ty0 or 'Vec<' not in ty0:
+                continue
+            recv = render(fn.expr_of_operand(t['args'][0]))
+            if not ('lock(' in recv and '.threads' in recv):
+                continue
+            m = name.split('::')[-1]
+            if (name.startswith('alloc::vec::Vec::') and m in ('extend', 'append', 'insert', 'extend_from_slice', 'resize_with', 'splice', 'extend_one', 'extend_from_within')) \
+                    or (t.get('trait') or '').endswith('iter::traits::collect::Extend') or m == 'extend':
+                bulk.append((fn, bb, m, 'threads are added to the table with `%s`, outside the bounded single push' % m))
+            elif name in ('core::mem::take', 'core::mem::replace', 'core::mem::swap'):
+                bulk.append((fn, bb, 'mem::' + m, 'the whole thread table is taken out of its mutex with `mem::%s`: while it is out, `threads.len()` under-counts the pool and a concurrent scheduling call spawns beyond the maximum' % m))
+    for fn, bb, m, why in bulk:
+        out.append(bad(R, '%s|table-changes-one-thread-at-a-time|%s' % (short(fn.name), m), why, loc=fn.loc(bb), fn=fn.name))
+    if not bulk:
+        out.append(ok(R, 'table-changes-one-thread-at-a-time', 'the thread table is never taken out wholesale or refilled in bulk'))
     for fn, bb, t in pushes:
         key = '%s|push' % short(fn.name)
         H = ctx.held(fn)
@@ -1876,6 +1900,17 @@ def c15_unwind(ctx):
                 nm = t['func'].get('fn') or ''
                 if 'catch_unwind' in nm:
                     hits.append((f, bb))
+    # anywhere else: a panic of an operation has to unwind through the ActiveQueue guard of whoever is running the queue (that is what marks
+    # the queue Panicked); an unwind that is caught inside the job and re-raised or swallowed later never passes the guard
+    g = cg(ctx)
+    for f in F.crate_fns():
+        if (f.root or f.name) in roots:
+            continue
+        for bb, t in f.calls():
+            nm = t['func'].get('fn') or ''
+            if 'catch_unwind' in nm and not f.blocks[bb]['cleanup']:
+                out.append(bad(R, '%s|no-catch' % short(f.root or f.name), 'a panic is caught inside the crate (%s): if it comes from an operation, it no longer unwinds through the ActiveQueue guard of the thread that runs the queue, '
+                               'so the queue is not marked Panicked and later operations run on data the panicking operation left half-updated' % short(f.name), loc=f.loc(bb), fn=f.name))
     if n < 6:
         out.append(undecided(R, 'floor', 'pool thread path has only %d bodies' % n))
     if hits:
